@@ -77,6 +77,19 @@ func emptyRequiredOutsideBody(l *Layout, v any) bool {
 	return false
 }
 
+// expressed returns the neutral value the generated Go type actually holds after v has been
+// stored in it (a required primitive is a non-pointer field: "unset" becomes its zero value).
+func expressed(s *Svc, rt reflect.Type, t *spec.Type, v any) (any, error) {
+	if rt == nil || t == nil {
+		return v, nil
+	}
+	rv, err := s.V.New(rt, t, v)
+	if err != nil {
+		return nil, err
+	}
+	return s.V.Get(rv, t), nil
+}
+
 // exchange performs one client call with the payload value and returns the observation.
 func exchange(s *Svc, m *spec.Method, v any, reply func(method string, args []any) []any) (call *Call, sentN any, res any, err error, herr error) {
 	call = &Call{Reply: reply}
